@@ -123,6 +123,7 @@ let dump : string list ref = ref []
 let data : z list ref = ref []
 let diag_lines : string list list ref = ref []
 let pure = ref "-" and order = ref "-"
+let reuse : (string * string) option ref = ref None   (* passes that differ, texts of the window *)
 let parse_err : (position * string) option ref = ref None
 
 (* ---- cantool lint *)
@@ -270,8 +271,13 @@ let finish_batch (id : string) =
               else begin
                 culprit := true;
                 let rest = String.sub o.c_out !pos (String.length o.c_out - !pos) in
+                let rec upto = function
+                  | [] -> []
+                  | m :: tl -> (if m.e_text = "" then "-" else m.e_text) :: (if m.e_n = e.e_n then [] else upto tl)
+                in
                 mismatch
-                  (cli_obs_string e { o with c_out = clip (String.length e.e_out + 300) rest })
+                  (cli_obs_string e { o with c_out = clip (String.length e.e_out + 300) rest }
+                  ^ " batchtexts=" ^ String.concat "," (upto members))
                   (cli_model_string e.e_exit e.e_out ^ " (member of a directory batch: output expected at byte "
                  ^ string_of_int !pos ^ " of the batch output)")
               end)
@@ -389,6 +395,13 @@ let finish_block () =
       pfail (Printf.sprintf "%s modified_by=%s text=%s" where !pure !cur_text) "analyzers do not modify the file";
     if !order <> "-" then
       pfail (Printf.sprintf "%s differs=%s text=%s" where !order !cur_text) "diagnostics do not depend on the order in which the passes run";
+    (match !reuse with
+    | None -> ()
+    | Some ("-", _) -> note_case ~nontrivial:(defs <> []) "reuse" where
+    | Some (x, texts) ->
+        note_case "reuse" where;
+        pfail (Printf.sprintf "%s reused_analyzer_differs=%s text=%s batchtexts=%s" where x !cur_text texts)
+          "an analyzer value obtained once from Analyzer() and run over several files in sequence (and twice over the same file) reports for each file what a fresh one reports: nothing is kept between runs");
     if (!cli_single <> None || !cli_batch <> None) && hex_of_data !data <> !cur_text then
       pfail (Printf.sprintf "%s text=%s" where !cur_text) "File.Data of the parsed file is the text that was parsed";
     (* the generator's promises about its boundary files, confirmed with the model (kinds cli-only:<analyzer>,
@@ -416,7 +429,7 @@ let handle line =
   | "FILE" :: n :: cat :: rest ->
       cur_n := n; cur_cat := cat; cur_text := (match rest with [ t ] -> t | _ -> "");
       parse_ok := false; dump := []; data := []; diag_lines := []; pure := "-"; order := "-";
-      parse_err := None; cli_single := None; cli_batch := None
+      parse_err := None; cli_single := None; cli_batch := None; reuse := None
   | [ "PARSE"; "ok" ] -> parse_ok := true
   | [ "PARSE"; "err"; pos; reason ] -> parse_ok := false; parse_err := Some (pos_of pos, string_of_s reason)
   | ("DEF" | "SIG") :: _ -> dump := line :: !dump
@@ -424,6 +437,8 @@ let handle line =
   | "DIAG" :: toks -> diag_lines := toks :: !diag_lines
   | [ "PURE"; x ] -> pure := x
   | [ "ORDER"; x ] -> order := x
+  | [ "REUSE"; "-" ] -> reuse := Some ("-", "")
+  | [ "REUSE"; x; texts ] -> reuse := Some (x, texts)
   | [ "CLI1"; path; exit; out; err ] -> cli_single := Some (unhex path, { c_exit = exit; c_out = unhex out; c_err = unhex err })
   | [ "CLIB"; id; path ] -> cli_batch := Some (id, unhex path)
   | [ "BATCH"; id; exit; out; err ] -> Hashtbl.replace batch_obs id { c_exit = exit; c_out = unhex out; c_err = unhex err }
